@@ -143,14 +143,11 @@ func Packetize(u SUnit, chunks []int, cc *uint8, padFF bool) []*ref.Pkt {
 			room -= af.Size()
 		}
 		n := room
-		if chunks != nil && k < len(chunks) {
-			n = chunks[k]
+		if chunks != nil && k < len(chunks) && chunks[k] > 0 && chunks[k] < room {
+			n = chunks[k] // 0 or >= room means greedy
 		}
 		if n > len(rest) {
 			n = len(rest)
-		}
-		if n > room {
-			panic(fmt.Sprintf("Packetize: chunk %d exceeds room %d", n, room))
 		}
 		p := &ref.Pkt{PID: u.PID, PUSI: k == 0, HasPL: true, CC: *cc & 0xf}
 		*cc = (*cc + 1) & 0xf
